@@ -288,9 +288,40 @@ def g_repeatunit(spec, r):
                     yield "repeatunit", (pre + unit * n + suf)[: base.MAX_INPUT], None
 
 
+def g_echo(spec, r):
+    """The same indicator material in clear AND inside one or two encodings in one input: structurally equal
+    sub-trees under different ancestors."""
+    while True:
+        core = r.choice([b"http://" + netgen.domain(r) + b"/" + netgen.label(r) + b".exe", netgen.email(r), b"cmd /c " + netgen.exe_name(r),
+                         netgen.ipv4(r), b"\\\\" + netgen.domain(r) + b"\\share\\" + netgen.exe_name(r)])
+        parts = [core]
+        for _ in range(r.randint(1, 3)):
+            k = r.randrange(5)
+            if k == 0:
+                parts.append(base64.b64encode(core + b" " * (r.randrange(3))))
+            elif k == 1:
+                parts.append(b'atob("' + base64.b64encode(core) + b'")')
+            elif k == 2:
+                parts.append(core.hex().encode())
+            elif k == 3:
+                parts.append(b"powershell -enc " + base64.b64encode(core.decode("latin-1").encode("utf-16-le")))
+            else:
+                parts.append(b"unescape('" + b"".join(b"%%%02x" % c for c in core) + b"')")
+        if r.random() < 0.5:
+            # the same encoded blob at two different decoding depths (deeper occurrence first or last)
+            inner = base64.b64encode(core)
+            outer = base64.b64encode(r.choice([b"see ", b"text and ", b""]) + inner + r.choice([b"", b" end"]))
+            parts = [outer, inner] if r.random() < 0.5 else [inner, outer]
+            if r.random() < 0.5:
+                parts.append(core)
+        else:
+            r.shuffle(parts)
+        yield "echo", r.choice([b" ", b"\n", b" ; ", b" , "]).join(parts), (None if r.random() < 0.6 else r.choice([1, 2, 3, 4]))
+
+
 GENERATORS = {
     "skel": g_skel, "xor": g_xor, "cmd": g_cmd, "pe": g_pe, "xorbytes": g_xorbytes, "matryoshka": g_matryoshka,
-    "nesting": g_nesting, "seedmut": g_seedmut, "soup": g_soup, "large": g_large, "repeat": g_repeat, "url": g_url, "ioc": g_ioc, "layer": g_layer, "ctxdec": g_ctxdec, "nest": g_nest, "repeatunit": g_repeatunit,
+    "nesting": g_nesting, "seedmut": g_seedmut, "soup": g_soup, "large": g_large, "repeat": g_repeat, "url": g_url, "ioc": g_ioc, "layer": g_layer, "ctxdec": g_ctxdec, "nest": g_nest, "repeatunit": g_repeatunit, "echo": g_echo,
 }
 
 
